@@ -115,6 +115,8 @@ def subst(t, mp):
 
 def _subst(t, mp):
     if isinstance(t, tuple):
+        if type(t) is not tuple:  # Site / Exc records: not terms
+            return t
         try:
             if t in mp:
                 return mp[t]
@@ -229,7 +231,7 @@ def show(t, depth=0):
     if k == "lit":
         if t[1] == "dict":
             return "{" + ", ".join("%s: %s" % (show(a, d), show(b, d)) for a, b in t[2]) + "}"
-        op, cl = {"list": "[]", "tuple": "()", "set": "{}"}[t[1]]
+        op, cl = {"list": "[]", "tuple": "()", "set": "{}", "slice": "<>"}[t[1]]
         return op + ", ".join(show(x, d) for x in t[2]) + cl
     if k == "elem":
         return "<elem of %s>" % show(t[1], d)
